@@ -299,12 +299,12 @@ def _simpler(mod, case):
     cfg = case.get("cfg")
     if isinstance(cfg, dict):
         f = cfg.get("filter")
-        if f:
+        if isinstance(f, list) and f:
             yield {**case, "cfg": {**cfg, "filter": []}}
             if len(f) > 1:
                 for k in range(len(f)):
                     yield {**case, "cfg": {**cfg, "filter": f[:k] + f[k + 1:]}}
-        if f and cfg.get("filter_style") not in (None, "callable"):
+        if isinstance(f, list) and f and cfg.get("filter_style") not in (None, "callable"):
             yield {**case, "cfg": {**cfg, "filter_style": "callable"}}
         obs = cfg.get("observers")
         if obs and len(obs) > 0 and not cfg.get("observers_fixed"):
@@ -431,8 +431,11 @@ def write_evidence(mod, pid, tier, verif_seed, total, violations, wall, harness_
         samples.append(_clip(s))
     if not samples:
         samples = [{"note": "no run completed"}]
+    evals = total["n"]
+    if getattr(mod, "EVAL_COUNTER", None):
+        evals = total["counts"].get(mod.EVAL_COUNTER, 0)
     cov = {
-        "evaluations": total["n"],
+        "evaluations": evals,
         "distinct_nontrivial": len(total["nontrivial"]),
         "rule": mod.RULE,
         "samples": samples,
